@@ -19,7 +19,7 @@ RULE = ("Case = NP2.1 or NP2.4 recording (8..64 AP channels on 1..4 shanks + syn
 ASSUMPTIONS = ["the reference low-pass is designed from the documented constants (order 2, 1000 / 2500 / 2 of Nyquist), in "
                "float64 on the integer samples; the implementation filters float32 volts, hence the 1 LSB tolerance",
                "the two file edges (50 LF samples on each side) are excluded, as the property states"]
-BUDGET = {"quick": 320, "thorough": 4000}
+BUDGET = {"quick": 320, "thorough": 20000}
 SHRINK = {"quick": False, "thorough": False}
 EDGE_LF = 50
 
